@@ -61,7 +61,7 @@ func configsFor(tier string) []BuildConfig {
 		return []BuildConfig{
 			defaultConfig,
 			{Label: "linux/amd64+leakcheck", Tags: "leakcheck"},
-			{Label: "linux/386", Env: []string{"GOARCH=386", "CGO_ENABLED=0"}},
+			{Label: "windows/amd64", Env: []string{"GOOS=windows", "CGO_ENABLED=0"}},
 		}
 	}
 	return []BuildConfig{defaultConfig}
@@ -131,6 +131,8 @@ func cachedUnit(repo, name string, bc BuildConfig) (*Unit, error) {
 }
 
 func main() {
+	// go/packages resolves `go` through this process's PATH: it must be the 1.26 toolchain.
+	os.Setenv("PATH", "/opt/veriftools/go1.26.8/bin:"+os.Getenv("PATH"))
 	opts := &Options{}
 	flag.StringVar(&opts.Repo, "repo", "/repo", "repository working tree to analyse")
 	flag.StringVar(&opts.EvidenceDir, "evidence", "/verif/evidence", "evidence directory")
